@@ -368,17 +368,23 @@ func c05Sentinels(algos []struct {
 		}
 		return out
 	}
-	type sent struct{ universe, events string }
+	type sent struct{ universe, events, pat string }
 	list := []sent{
-		{"zero-time", "S1 C T U1 C T X C T"},      // clock-less bundle across clean ticks and a restart
-		{"zero-time", "R2 C U1 U2 T"},             // expired bundle is swept
-		{"same-ms", "S1 S2 T U2 T X T"},           // two submissions of one millisecond
-		{"plain", "R2 R2 R2 T U2"},                // repeated reception of a waiting bundle, then its destination
-		{"plain", "S1 R1 T U1 T"},                 // own bundle comes back before it was forwarded
-		{"plain", "U1 S1 T T X U1 T U2 T"},        // failures and retries, restart
-		{"plain", "U1 U2 R2 D2 R2 U2"},            // direct delivery, failure, redelivery
-		{"refused", "U1 R1 R2 S1 T C"},            // hop limit, refused submit
-		{"from-dest", "R2 U2 T U1 T"},             // a bundle that came from its destination node
+		{"zero-time", "S1 C T U1 C T X C T", ""},      // clock-less bundle across clean ticks and a restart
+		{"zero-time", "R2 C U1 U2 T", ""},             // expired bundle is swept
+		{"same-ms", "S1 S2 T U2 T X T", ""},           // two submissions of one millisecond
+		{"plain", "R2 R2 R2 T U2", ""},                // repeated reception of a waiting bundle, then its destination
+		{"plain", "S1 R1 T U1 T", ""},                 // own bundle comes back before it was forwarded
+		{"plain", "U1 S1 T T X U1 T U2 T", ""},        // failures and retries, restart
+		{"plain", "U1 U2 R2 D2 R2 U2", ""},            // direct delivery, failure, redelivery
+		{"refused", "U1 R1 R2 S1 T C", ""},            // hop limit, refused submit
+		{"from-dest", "R2 U2 T U1 T", ""},             // a bundle that came from its destination node
+		// numbers 0 and 2 of one (source, time) wait in the store, number 1 was delivered; restart; two more
+		// submissions: neither may take a stored bundle's number (every transmission succeeds)
+		{"same-ms", "S1 U2 S2 D2 S1 X S1 S1 T U1 T", "1"},
+		// one forwarding attempt with a mixed outcome (peer 1 takes the bundle, peer 2 fails): the failed peer
+		// must be offered the bundle again
+		{"plain", "U1 U2 S1 T T D2 U2 T", "mixed"},
 	}
 	var out []*nHist
 	for _, a := range algos {
@@ -394,6 +400,13 @@ func c05Sentinels(algos []struct {
 					pat := "0011"
 					if (i+p.addr+b.tag)%2 == 1 {
 						pat = "10"
+					}
+					switch s.pat {
+					case "":
+					case "mixed":
+						pat = []string{"", "1", "0011"}[p.addr]
+					default:
+						pat = s.pat
 					}
 					h.oracle[[2]int{p.addr, b.tag}] = pat
 				}
